@@ -177,17 +177,17 @@ def _rowlocal_step(u, file, cls, atsp):
     rowlocal(u, "step", lambda u, B: tsp_state(u, B, N, atsp), lambda u, td: u.run(file, f"{cls}._step", td), requires=req)
 
 
-@unit("tsp.rowlocal.step", file=FT, func="TSPEnv._step", props=("C04",))
+@unit("tsp.rowlocal.step", file=FT, func="TSPEnv._step", props=("C04", "C14"))
 def _(u):
     _rowlocal_step(u, FT, "TSPEnv", False)
 
 
-@unit("atsp.rowlocal.step", file=FA, func="ATSPEnv._step", props=("C04",))
+@unit("atsp.rowlocal.step", file=FA, func="ATSPEnv._step", props=("C04", "C14"))
 def _(u):
     _rowlocal_step(u, FA, "ATSPEnv", True)
 
 
-@unit("tsp.rowlocal.reward", file=FT, func="TSPEnv._get_reward", props=("C04",))
+@unit("tsp.rowlocal.reward", file=FT, func="TSPEnv._get_reward", props=("C04", "C14"))
 def _(u):
     N, T = u.dims("N T")
     u.requires(T >= 2)
@@ -203,7 +203,7 @@ def _(u):
     rowlocal(u, "reward", mk_in, lambda u, ins: u.run(FT, "TSPEnv._get_reward", ins["td"], ins["actions"], selfobj=env), requires=req)
 
 
-@unit("atsp.rowlocal.reward", file=FA, func="ATSPEnv._get_reward", props=("C04",))
+@unit("atsp.rowlocal.reward", file=FA, func="ATSPEnv._get_reward", props=("C04", "C14"))
 def _(u):
     N, T = u.dims("N T")
     env = u.obj(FA, "ATSPEnv", check_solution=False)
